@@ -74,6 +74,18 @@ impl RefConv for i64 {
         }
     }
 }
+impl RefConv for u8 {
+    fn conv(d: &Data, pos: P) -> Result<Self, E> {
+        match d {
+            // numbers are cast (saturating for floats, truncating for integers); text must spell a value of the type itself
+            Data::Float(v) => Ok(*v as u8),
+            Data::Int(v) => Ok(*v as u8),
+            Data::String(s) => s.parse::<u8>().map_err(|_| E::Custom),
+            Data::Error(_) => Err(cell_err(d, pos).unwrap()),
+            _ => Err(E::Custom),
+        }
+    }
+}
 impl RefConv for bool {
     fn conv(d: &Data, pos: P) -> Result<Self, E> {
         match d {
@@ -274,6 +286,8 @@ fn cell_alphabet() -> Vec<Data> {
         Data::Float(0.5),
         // the title-case spelling of a boolean string
         Data::String("False".into()),
+        // text that is a number, but not of every numeric type: fractional, negative, beyond u8
+        Data::String("2.5".into()), Data::String("-1".into()), Data::String("300".into()),
     ]
 }
 
@@ -530,8 +544,59 @@ fn explore_target<T: Target>(rep: &Report, stats: &Mutex<Stats>, thorough: bool)
     });
 }
 
+/// Real sheets as ranges: every sheet of every fixture workbook of the repository is deserialized without headers into
+/// Vec<Data>; one item per row in order, each equal to the reference conversion of the row's cells, an error cell failing its own
+/// row with its kind and absolute position, size_hint bracketing what is left.
+fn corpus_rows(rep: &Report) {
+    use calamine::Reader;
+    let files = crate::props::corpus::fixtures(&crate::props::corpus::ALL);
+    let sheets = std::sync::atomic::AtomicU64::new(0);
+    let rows_seen = std::sync::atomic::AtomicU64::new(0);
+    files.par_iter().for_each(|(fname, bytes)| {
+        crate::engine::crumb::set_case(&format!("C09 fixture {fname}"));
+        let r = guarded(|| -> Vec<(String, String)> {
+            let mut bad = vec![];
+            let Ok(mut wb) = calamine::open_workbook_auto_from_rs(std::io::Cursor::new(bytes.clone())) else { return bad };
+            for name in wb.sheet_names() {
+                let Ok(range) = wb.worksheet_range(&name) else { continue };
+                let (Some(s), h, w) = (range.start(), range.height(), range.width()) else { continue };
+                if h * w > 200_000 { continue; }
+                sheets.fetch_add(1, std::sync::atomic::Ordering::Relaxed);
+                let Ok(mut it) = RangeDeserializerBuilder::new().has_headers(false).from_range::<Data, Vec<Data>>(&range) else { bad.push(("build".into(), format!("sheet {name:?}: from_range failed"))); continue };
+                let mut k = 0usize;
+                loop {
+                    let (lo, hi) = it.size_hint();
+                    let left = h - k.min(h);
+                    if lo > left || hi.map(|x| x < left).unwrap_or(false) { bad.push(("size_hint".into(), format!("sheet {name:?} before row {k}: size_hint ({lo},{hi:?}), {left} rows left"))); break; }
+                    let Some(item) = it.next() else { break };
+                    if k >= h { bad.push(("count".into(), format!("sheet {name:?}: more items than rows ({h})"))); break; }
+                    let cells: Vec<&Data> = (0..w).map(|j| range.get((k, j)).unwrap()).collect();
+                    let exp: Result<Vec<Data>, E> = cells.iter().enumerate().map(|(j, d)| <Data as RefConv>::conv(d, (s.0 + k as u32, s.1 + j as u32))).collect();
+                    let got = item.map_err(|e| classify(&e));
+                    if got != exp { bad.push((if exp.is_err() { "cell-error" } else { "row" }.into(), format!("sheet {name:?} row {k}: got {}, expected {}", format!("{got:?}").chars().take(160).collect::<String>(), format!("{exp:?}").chars().take(160).collect::<String>()))); break; }
+                    k += 1;
+                }
+                if k != h && bad.is_empty() { bad.push(("count".into(), format!("sheet {name:?}: {k} items for {h} rows"))); }
+                rows_seen.fetch_add(k as u64, std::sync::atomic::Ordering::Relaxed);
+            }
+            bad
+        });
+        rep.eval(1);
+        let replay = || Replay { json: json!({"fixture": fname}), files: vec![] };
+        match r {
+            Err(p) => { let site = crate::engine::normalise_site(p.rsplit(" @ ").next().unwrap_or("")); rep.fail(&format!("corpus/panic/{site}"), &format!("{fname}: panicked: {p}"), replay); }
+            Ok(bad) => { for (k, d) in &bad { rep.fail(&format!("corpus/{k}"), &format!("{fname}: {d}"), replay); } rep.case(crate::engine::hash_of(&("corpus", fname)), true, crate::engine::hash_of(&format!("{bad:?}"))); }
+        }
+        crate::engine::crumb::clear();
+    });
+    rep.extra("fixture_files", json!(files.len()));
+    rep.extra("fixture_sheets_deserialized", json!(sheets.load(std::sync::atomic::Ordering::Relaxed)));
+    rep.extra("fixture_rows_deserialized", json!(rows_seen.load(std::sync::atomic::Ordering::Relaxed)));
+}
+
 pub fn check(rep: &Report) {
-    rep.rule("choice tree: origin {(0,0),(2,3)} x height 0..3 x width 1..3 x header mode {none, all, custom selection, struct fields} x header names / ordered selections (padded with blanks or tab / no-break space / newline, unknown) x iterator consumed by next / nth(0) / nth(1) / collect x cell contents over 10 values x 14 target shapes (incl. a unit-variant enum, plain and optional); full product when the job's choice product is <= 1500 (thorough 60000), else all vectors with <= 2 (thorough 3) deviations from the default; non-trivial = at least one non-default choice; distinct = by printed case");
+    corpus_rows(rep);
+    rep.rule("choice tree: origin {(0,0),(2,3)} x height 0..3 x width 1..3 x header mode {none, all, custom selection, struct fields} x header names / ordered selections (padded with blanks or tab / no-break space / newline, unknown) x iterator consumed by next / nth(0) / nth(1) / collect x cell contents over 10 values x 15 target shapes (incl. a unit-variant enum, plain and optional); full product when the job's choice product is <= 1500 (thorough 60000), else all vectors with <= 2 (thorough 3) deviations from the default; non-trivial = at least one non-default choice; distinct = by printed case");
     rep.assume("reference row mapper in props/c09.rs (documented conversion rules); Custom error messages are not compared, only the error class; CellError kind and absolute position are compared exactly");
     rep.assume("padded header cells are only combined with positional targets (the statement promises trimming for header selection, not for map keys)");
     let t = crate::thorough(&rep.tier);
@@ -541,6 +606,7 @@ pub fn check(rep: &Report) {
     explore_target::<Vec<Option<f64>>>(rep, &stats, t);
     explore_target::<Vec<bool>>(rep, &stats, t);
     explore_target::<Vec<i64>>(rep, &stats, t);
+    explore_target::<Vec<u8>>(rep, &stats, t);
     explore_target::<(Data,)>(rep, &stats, t);
     explore_target::<(String, Option<i64>)>(rep, &stats, t);
     explore_target::<(Data, String, Option<f64>)>(rep, &stats, t);
@@ -562,6 +628,7 @@ pub fn check(rep: &Report) {
 pub fn replay(path: &str) -> i32 {
     let Ok(s) = std::fs::read_to_string(path) else { return 2 };
     let v: serde_json::Value = serde_json::from_str(&s).unwrap();
+    if let Some(c) = crate::props::corpus::replay_fixture(&v) { return c; }
     let choices: Vec<u32> = v["choices"].as_array().unwrap().iter().map(|x| x.as_u64().unwrap() as u32).collect();
     let o = &v["outer"];
     let origin = (o[1][0].as_u64().unwrap() as u32, o[1][1].as_u64().unwrap() as u32);
